@@ -224,7 +224,7 @@ pub fn replay(config: &Value, ops: &[String]) -> Vec<String> {
 }
 
 fn tmenu(fs: f32) -> Vec<f32> {
-    vec![0.0, 1.0 / fs, 2.0 / fs, 3.0 / fs, 3.9 / fs, 5.0 / fs, 0.01, 0.06, 0.5, 10.0]
+    vec![0.0, -0.0, 1.0 / fs, 2.0 / fs, 3.0 / fs, 3.9 / fs, 5.0 / fs, 0.01, 0.06, 0.5, 10.0]
 }
 
 fn viol(prop: &'static str, class: &str, detail: String, fs: f32, ops: Vec<String>) -> Violation {
@@ -233,15 +233,15 @@ fn viol(prop: &'static str, class: &str, detail: String, fs: f32, ops: Vec<Strin
 
 pub fn c13(ctx: &Ctx) -> Report {
     let mut rep = Report::new();
-    rep.rule.push("E1: plain enumeration of ALL operation sequences to a depth (no state merging) on the real glide processor: process(x) for x in {0, 1, -1, 0.5, 10}, two 8-sample holds, set_time(t) for ten times from 0 to 10 s incl. 1/fs..5/fs; plus all schedules with <= 2 set_time calls at every sample index of a 40-sample glide; plus long holds (8*t*fs samples) for convergence; after every sample: output within [min(0, inputs), max(0, inputs)] +- A, with A = 4*ulp(M)/(1-p); while the input is held, from the second held sample on, the output never moves away from it nor crosses it (beyond A); non-trivial = held samples checked while the output was still moving".into());
+    rep.rule.push("E1: plain enumeration of ALL operation sequences to a depth (no state merging) on the real glide processor: process(x) for x in {0, 1, -1, 0.5, 10}, two 8-sample holds, set_time(t) for eleven times from 0 to 10 s incl. -0.0 and 1/fs..5/fs; plus all schedules with <= 2 set_time calls at every sample index of a 40-sample glide; plus the fast settings at every 7th (thorough: every) integer sample rate and a fractional neighbour of each; plus long holds for convergence (continued until the output rests; it must rest on the input), also after a time change in mid-glide; after every sample: output within [min(0, inputs), max(0, inputs)] +- A, with A = 4*ulp(M)/(1-p); while the input is held, from the second held sample on, the output never moves away from it nor crosses it (beyond A); non-trivial = held samples checked while the output was still moving".into());
     let thorough = ctx.tier.is_thorough();
-    let rates: Vec<(f32, u32)> = if thorough { vec![(100.0, 6), (1000.0, 6), (48000.0, 6), (441.0, 5), (8000.0, 5), (44100.0, 5), (12345.0, 5)] } else { vec![(100.0, 5), (1000.0, 5), (48000.0, 5), (441.0, 4), (44100.0, 4)] };
+    let rates: Vec<(f32, u32)> = if thorough { vec![(100.0, 6), (1000.0, 6), (48000.0, 6), (441.0, 5), (8000.0, 5), (44100.0, 5), (12345.0, 5), (100.9, 5), (22050.0, 5), (999.5, 5), (44117.647, 5), (33333.332, 5)] } else { vec![(100.0, 5), (1000.0, 5), (48000.0, 5), (441.0, 4), (44100.0, 4), (100.9, 4), (22050.0, 4), (999.5, 4), (44117.647, 4)] };
     for (fs, depth) in rates {
         let m = GlideM::new(fs, vec![0.0, 1.0, -1.0, 0.5, 10.0], tmenu(fs));
         enumerate_sequences(&m, depth, ctx, &mut rep, &["C13"], &format!("all operation sequences of length {} at {} Hz", depth, fs));
     }
     // deviation-bounded schedules: a 40-sample glide 0 -> 1 with <= 2 set_time calls at every sample index
-    for fs in if thorough { vec![100.0f32, 1000.0, 48000.0] } else { vec![100.0f32, 1000.0] } {
+    for fs in if thorough { vec![100.0f32, 1000.0, 48000.0, 100.9, 22050.0] } else { vec![100.0f32, 1000.0, 100.9] } {
         let tm = tmenu(fs);
         let tmr = &tm;
         let nt = tm.len() as u64;
@@ -293,14 +293,20 @@ pub fn c13(ctx: &Ctx) -> Report {
             }
         });
     }
-    // every integer sample rate in [100, 48000] (quick: every 16th): the fast settings around the 2- and 4-sample
-    // limits, from rest and switched in during a glide
+    // every integer sample rate in [100, 48000] (quick: every 7th, which visits every residue modulo 2..6, 8, 16),
+    // each also raised by a fraction (+0.5, +0.96875, +0.03125, +1/3 in turn): the fast settings around the 2- and
+    // 4-sample limits, from rest and switched in during a glide
     {
-        let stride: u64 = if thorough { 1 } else { 16 };
+        let stride: u64 = if thorough { 1 } else { 7 };
         let n = (48_000 - 100) / stride + 1;
-        par_ranges(ctx, &mut rep, n, 512, |_, lo, hi, lc| {
-            for i in lo..hi {
-                let fs = (100 + i * stride) as f32;
+        par_ranges(ctx, &mut rep, 2 * n, 512, |_, lo, hi, lc| {
+            for i2 in lo..hi {
+                let i = i2 / 2;
+                let base = (100 + i * stride) as f32;
+                let fs = if i2 % 2 == 0 { base } else { (base + [0.5f32, 0.96875, 0.03125, 0.333_333_34][(i % 4) as usize]).min(48_000.0) };
+                if i2 % 2 == 1 {
+                    lc.count("non_integer_rate_fast_settings", 1);
+                }
                 for k in [0.0f32, 1.0, 2.0, 3.0, 3.5, 3.9, 4.0, 4.5, 6.0, 10.0] {
                     for mid in [false, true] {
                         let t = k / fs;
@@ -331,29 +337,48 @@ pub fn c13(ctx: &Ctx) -> Report {
             }
         });
     }
-    // convergence: after a hold of 8*t*fs samples the output has settled on the input
-    let mut jobs: Vec<(f32, f32, f32, f32)> = Vec::new(); // fs, t, from, to
-    for fs in [100.0f32, 1000.0, 48000.0] {
+    // convergence: a held input is reached. The statement sets no deadline, so after 8*t*fs + 16 samples the hold
+    // is continued until the output rests (unchanged over 16 samples), at most 40*t*fs + 4096 samples; where it rests
+    // must be the input (within A). Also after a time change in the middle of a glide (pre = Some(t0)).
+    let mut jobs: Vec<(f32, f32, f32, f32, Option<f32>)> = Vec::new(); // fs, t, from, to, earlier time
+    for fs in [100.0f32, 1000.0, 48000.0, 100.9, 22050.0] {
         for t in tmenu(fs).into_iter().chain([0.2f32, 2.5, 7.5]) {
-            if fs > 100.0 && t > 0.06 && !(thorough && fs == 1000.0) {
+            if fs > 100.9 && t > 0.06 && !(thorough && fs == 1000.0) {
                 continue;
             }
             for (a, b) in [(0.0f32, 1.0f32), (1.0, 0.0), (0.0, 10.0), (-1.0, 1.0), (5.0, 5.083_333_5), (0.25, 0.75), (0.0, 1.0e-10), (0.0, -1.0e-13), (1.0e-30, 3.0e-30), (0.0, 1.0e10), (-2.5e3, 1.0e3)] {
-                jobs.push((fs, t, a, b));
+                jobs.push((fs, t, a, b, None));
+            }
+            if t <= 0.5 || fs <= 100.9 {
+                for t0 in [0.5f32, 0.0, 3.0 / fs, 10.0] {
+                    jobs.push((fs, t, 0.0, 1.0, Some(t0)));
+                    jobs.push((fs, t, -1.0, 0.25, Some(t0)));
+                }
             }
         }
     }
     let jr = &jobs;
     par_ranges(ctx, &mut rep, jobs.len() as u64, jobs.len() as u64, |_, lo, hi, lc| {
         for j in lo..hi {
-            let (fs, t, a, b) = jr[j as usize];
+            let (fs, t, a, b, pre) = jr[j as usize];
             let mut m = GlideM::new(fs, vec![a, b], vec![]);
-            let n = (8.0 * t as f64 * fs as f64).ceil() as u32 + 16;
-            let ops = vec![GOp::SetTime(t), GOp::Hold(a, n), GOp::Hold(b, n)];
+            let n = (8.0 * t.max(0.0) as f64 * fs as f64).ceil() as u32 + 16;
+            let horizon = (40.0 * t.max(0.0) as f64 * fs as f64).ceil() as u64 + 4096;
+            let mut ops = match pre {
+                None => vec![GOp::SetTime(t), GOp::Hold(a, n), GOp::Hold(b, n)],
+                // the earlier time is in effect for the first five samples of the glide a -> b, then t is requested
+                Some(t0) => vec![GOp::SetTime(t0), GOp::Hold(a, 3), GOp::Hold(b, 5), GOp::SetTime(t), GOp::Hold(b, n)],
+            };
+            let targets: Vec<Option<f32>> = match pre {
+                None => vec![None, Some(a), Some(b)],
+                Some(_) => vec![None, None, None, None, Some(b)],
+            };
             let mut ok = true;
-            for (k, op) in ops.iter().enumerate() {
+            let mut k = 0usize;
+            while k < ops.len() {
+                let op = ops[k].clone();
                 let mut out = StepOut::new();
-                m.apply(op, &mut out);
+                m.apply(&op, &mut out);
                 for (kk, c) in out.counts {
                     lc.count(kk, c);
                 }
@@ -364,18 +389,51 @@ pub fn c13(ctx: &Ctx) -> Report {
                 if !ok {
                     break;
                 }
-                let target = if k == 1 { a } else { b };
-                if k >= 1 {
+                if let Some(target) = targets[k.min(targets.len() - 1)] {
                     let al = m.allowance();
                     lc.count("long_holds", 1);
+                    if pre.is_some() {
+                        lc.count("long_holds_after_a_time_change_in_mid_glide", 1);
+                    }
+                    let mut extra: u64 = 0;
+                    let mut rested = (m.prev_y as f64 - target as f64).abs() <= al;
+                    if !rested {
+                        lc.count("long_holds_continued_beyond_8t", 1);
+                    }
+                    while !rested && extra < horizon {
+                        let before = m.prev_y;
+                        let mut out = StepOut::new();
+                        m.apply(&GOp::Hold(target, 16), &mut out);
+                        extra += 16;
+                        for f in out.flags {
+                            ok = false;
+                            let mut sc: Vec<String> = ops[..=k].iter().map(GlideM::op_str).collect();
+                            sc.push(format!("process:{:?}*{}", target, extra));
+                            lc.violation(viol("C13", &f.class, f.detail, fs, sc));
+                        }
+                        if !ok || m.prev_y.to_bits() == before.to_bits() {
+                            rested = true;
+                        }
+                    }
+                    if !ok {
+                        break;
+                    }
+                    let al = m.allowance();
                     if !((m.prev_y as f64 - target as f64).abs() <= al) {
-                        lc.violation(viol("C13", "does-not-settle", format!("after holding {:?} for {} samples (8 x the glide time {:?} s at {} Hz) the output is {:?} (allowance {:e})", target, n, t, fs, m.prev_y, al), fs, ops[..=k].iter().map(GlideM::op_str).collect()));
+                        let mut sc: Vec<String> = ops[..=k].iter().map(GlideM::op_str).collect();
+                        if extra > 0 {
+                            sc.push(format!("process:{:?}*{}", target, extra));
+                        }
+                        let what = if extra >= horizon { "is still moving and is at" } else { "rests at" };
+                        lc.violation(viol("C13", "does-not-settle", format!("holding {:?} for {} samples (glide time {:?} s at {} Hz): the output {} {:?} (allowance {:e})", target, n as u64 + extra, t, fs, what, m.prev_y, al), fs, sc));
                     }
                     if al > 0.001 * (b - a).abs() as f64 {
                         lc.count("long_holds_weak_allowance_exceeds_0.1_percent_of_step", 1);
                     }
                 }
+                k += 1;
             }
+            let _ = &mut ops;
         }
     });
     let s = rep.counters.get("samples").copied().unwrap_or(0);
@@ -386,6 +444,8 @@ pub fn c13(ctx: &Ctx) -> Report {
     rep.require_nonzero("set_time_calls_while_gliding");
     rep.require_nonzero("long_holds");
     rep.require_nonzero("integer_rate_fast_settings");
+    rep.require_nonzero("non_integer_rate_fast_settings");
+    rep.require_nonzero("long_holds_after_a_time_change_in_mid_glide");
     rep.sample(json!({"script": {"machine": "glide", "config": {"fs": 1000.0}, "ops": ["set_time:1.0", "process:0.0", "process:1.0*500", "set_time:0.0", "process:1.0*8"]}, "meaning": "switching the glide off in the middle of a glide"}));
     rep.assumptions.push("inputs, times and sample rates are the stated menus; allowance A = 4*ulp(M)/(1-p) with p = 1 - min(1, 2*pi/(t*fs)) for the largest time that may be in effect".into());
     rep
@@ -430,9 +490,9 @@ fn settle_and_step(g: &mut GlideProcessor, fs: f32, t_settle: f32, a: f32, b: f3
 
 pub fn c14(ctx: &Ctx) -> Report {
     let mut rep = Report::new();
-    rep.rule.push("(a) E2 over the plane: 9 sample rates x a geometric grid of times (x1.5 quick, x1.13 thorough) from 100/fs to 10 s (plus 20, 100, 1e6 s compared with 10 s, and the sub-2-sample times 0, 0.1/fs, 1/fs, 1.9/fs) x 9 steps (incl. steps that are a tiny fraction of the level they sit on), plus every integer sample rate x 3 times from rest: the real processor is settled, stepped, and the fraction covered after t and t/10 seconds is compared with the statement's bounds (+- the f32 allowance); (b) E1: all set_time schedules of length <= 4 over a 9-time menu and creeping ramps: the measured step response must satisfy the criterion for a time the 0.05 s dead-band rule allows to be in effect; non-trivial = step responses measured with >= 100 samples per t".into());
+    rep.rule.push("(a) E2 over the plane: 12 sample rates (3 non-integer) x a geometric grid of times (x1.5 quick, x1.13 thorough) from 100/fs to 10 s (plus 20, 100, 1e6 s compared with 10 s, and the sub-2-sample times 0, -0, 0.1/fs, 1/fs, 1.9/fs) x 9 steps (incl. steps that are a tiny fraction of the level they sit on), plus every 7th (thorough: every) integer sample rate and a fractional neighbour of each x 3 times from rest, the first call on a fresh processor being judged with the dead-band rule too (a fresh processor is on the setting time 0 selects): the real processor is settled, stepped, and the fraction covered after t and t/10 seconds is compared with the statement's bounds (+- the f32 allowance); (b) E1: all set_time schedules of length <= 4 over a 9-time menu and creeping ramps, at 8 kHz and at 100 Hz: the measured step response must satisfy the criterion for a time the 0.05 s dead-band rule allows to be in effect; (c) E1, differential: chains of 2-3 set_time calls (14 base times 0..10 s x 22 signed offsets 0.02..3 s, both orders) at 3 (thorough 6) sample rates: the step response must equal, within 1e-6, that of a processor set directly to a time the rule allows to be in effect; non-trivial = step responses measured with >= 100 samples per t".into());
     let thorough = ctx.tier.is_thorough();
-    let rates: [f32; 9] = [100.0, 441.0, 1000.0, 8000.0, 44100.0, 48000.0, 22050.0, 12345.0, 250.0];
+    let rates: [f32; 12] = [100.0, 441.0, 1000.0, 8000.0, 44100.0, 48000.0, 22050.0, 12345.0, 250.0, 100.9, 999.5, 44117.647];
     let steps: [(f32, f32); 9] = [(0.0, 1.0), (1.0, 0.0), (0.0, 10.0), (-1.0, 1.0), (0.25, 0.75), (5.0, 5.083_333_5), (100.0, 100.05), (-50.0, -50.02), (1.0e-3, 1.0e-3 + 1.0e-7)];
     let mut jobs: Vec<(f32, f32)> = Vec::new();
     for fs in rates {
@@ -442,7 +502,7 @@ pub fn c14(ctx: &Ctx) -> Report {
             t *= if thorough { 1.13 } else { 1.5 };
         }
         jobs.push((fs, 10.0));
-        for t in [0.0f32, 0.1 / fs, 1.0 / fs, 1.9 / fs] {
+        for t in [0.0f32, -0.0, 0.1 / fs, 1.0 / fs, 1.9 / fs] {
             jobs.push((fs, t));
         }
         if thorough || fs <= 1000.0 {
@@ -511,7 +571,13 @@ pub fn c14(ctx: &Ctx) -> Report {
                         s.push(format!("process:{:?}*{}", b, nresp));
                         s
                     };
-                    match criterion(t, fs, &resp, a_rel) {
+                    // the dead-band rule applies to the first call too: a fresh processor is on its fastest setting (what time
+                    // 0 selects), so a first request within 0.05 s of 0 may be honoured or ignored
+                    let mut first = TimeSet::new();
+                    first.request(t);
+                    let verdicts: Vec<Option<bool>> = first.0.iter().map(|e| criterion(*e, fs, &resp, a_rel)).collect();
+                    let verdict = if verdicts.iter().any(|v| *v == Some(true)) { Some(true) } else if verdicts.iter().all(|v| *v == Some(false)) { Some(false) } else { None };
+                    match verdict {
                         Some(true) => {
                             if te * fs >= 100.0 {
                                 lc.count("step_responses_with_100_samples_per_t", 1);
@@ -552,13 +618,16 @@ pub fn c14(ctx: &Ctx) -> Report {
             }
         }
     }
-    // every integer sample rate in [100, 48000] (quick: every 16th): step from rest at three times
+    // every integer sample rate in [100, 48000] (quick: every 7th) and a fractional neighbour of each: step from rest
+    // at three times
     {
-        let stride: u64 = if thorough { 1 } else { 16 };
+        let stride: u64 = if thorough { 1 } else { 7 };
         let n = (48_000 - 100) / stride + 1;
-        par_ranges(ctx, &mut rep, n, 512, |_, lo, hi, lc| {
-            for i in lo..hi {
-                let fs = (100 + i * stride) as f32;
+        par_ranges(ctx, &mut rep, 2 * n, 512, |_, lo, hi, lc| {
+            for i2 in lo..hi {
+                let i = i2 / 2;
+                let base = (100 + i * stride) as f32;
+                let fs = if i2 % 2 == 0 { base } else { (base + [0.5f32, 0.96875, 0.03125, 0.333_333_34][(i % 4) as usize]).min(48_000.0) };
                 for t in [150.0 / fs, 0.013 + 100.0 / fs, 1.3 / fs] {
                     let nresp = ((t as f64 * fs as f64).round() as usize).max(8) + 2;
                     let mut g = GlideProcessor::new(fs);
@@ -569,18 +638,19 @@ pub fn c14(ctx: &Ctx) -> Report {
                     }
                     let a_rel = 4.0 * ulp32(1.0) as f64 / one_minus_p(t, fs);
                     lc.count("integer_rate_step_responses", 1);
-                    if criterion(t, fs, &resp, a_rel) == Some(false) {
+                    let mut first = TimeSet::new();
+                    first.request(t);
+                    if first.0.iter().all(|e| criterion(*e, fs, &resp, a_rel) == Some(false)) {
                         let nn = ((t as f64 * fs as f64).round() as usize).max(1);
                         lc.violation(viol("C14", if t * fs < 2.0 { "fastest-setting-not-settled-in-8-samples" } else { "time-constant" }, format!("fs={} Hz, t={:?} s, step 0 -> 1 from rest: covered {:.4} after t, {:.4} after t/10", fs, t, resp[(nn - 1).min(resp.len() - 1)], resp[((t as f64 * fs as f64 / 10.0).round() as usize).max(1) - 1]), fs, vec![format!("set_time:{:?}", t), format!("process:1.0*{}", nresp)]));
                     }
                 }
             }
         });
-        rep.evaluations += n * 3;
+        rep.evaluations += n * 6;
     }
     // (b) dead band: schedules
     let menu: [f32; 9] = [0.0, 0.04, 0.5, 0.53, 0.56, 0.6, 1.0, 1.04, 5.0];
-    let fs = 8000.0f32;
     let mut scheds: Vec<Vec<f32>> = Vec::new();
     let maxlen = if thorough { 4 } else { 3 };
     for len in 1..=maxlen {
@@ -609,8 +679,11 @@ pub fn c14(ctx: &Ctx) -> Report {
     // every schedule is run twice: (0) all calls before any sample, step 0 -> 1; (1) the first call before any
     // sample, then the processor is settled on a non-zero level, then the remaining calls, then a step 5 -> 6
     // (a time change must neither disturb the level the output rests on nor the response that follows)
-    par_ranges(ctx, &mut rep, scheds.len() as u64 * 2, 512, |_, lo, hi, lc| {
-        for idx in lo..hi {
+    par_ranges(ctx, &mut rep, scheds.len() as u64 * 4, 512, |_, lo, hi, lc| {
+        for idx4 in lo..hi {
+            // the dead band is a property of the time alone: the same schedules at a high and at the lowest sample rate
+            let fs = if idx4 % 2 == 0 { 8000.0f32 } else { 100.0f32 };
+            let idx = idx4 / 2;
             let sch = &sr[(idx / 2) as usize];
             let variant = idx % 2;
             if variant == 1 && sch.len() < 2 {
@@ -669,7 +742,83 @@ pub fn c14(ctx: &Ctx) -> Report {
             }
         }
     });
-    let n = rep.counters.get("step_responses").copied().unwrap_or(0) + rep.counters.get("schedules").copied().unwrap_or(0);
+    // (c) dead band, differential: "honoured" means the processor then behaves as one on which that time was set
+    // directly. After a chain of set_time calls on a fresh processor the step response from rest must be the response
+    // of a reference processor for one of the times the dead-band rule allows to be in effect; the reference is
+    // brought to time e by a request that is at least 5 s away from e (always honoured) followed by e.
+    {
+        let bases: [f32; 14] = [0.0, 0.03, 0.1, 0.2, 0.3, 0.5, 1.0, 2.0, 3.0, 5.0, 7.0, 9.0, 9.9, 10.0];
+        let deltas: [f32; 11] = [0.02, 0.04, 0.06, 0.08, 0.11, 0.15, 0.21, 0.3, 0.5, 1.0, 3.0];
+        let mut chains: Vec<Vec<f32>> = Vec::new();
+        for b in bases {
+            for d in deltas {
+                for sg in [1.0f32, -1.0] {
+                    let r = b + sg * d;
+                    if (0.0..=10.0).contains(&r) {
+                        chains.push(vec![b, r]);
+                        chains.push(vec![r, b]);
+                    }
+                    // three calls: the middle one may or may not have been honoured; the third is judged against
+                    // the time really in effect
+                    for d2 in [0.04f32, 0.06, -0.04, -0.06] {
+                        let r2 = r + d2;
+                        if d <= 0.08 && (0.0..=10.0).contains(&r) && (0.0..=10.0).contains(&r2) {
+                            chains.push(vec![b, r, r2]);
+                        }
+                    }
+                }
+            }
+        }
+        let crates: Vec<f32> = if thorough { vec![100.0, 1000.0, 8000.0, 44100.0, 100.9, 48000.0] } else { vec![100.0, 1000.0, 8000.0] };
+        let cr = &chains;
+        let rr = &crates;
+        let total = (chains.len() * crates.len()) as u64;
+        par_ranges(ctx, &mut rep, total, 256, |_, lo, hi, lc| {
+            let respond = |calls: &[f32], fs: f32, n: usize| -> Vec<f32> {
+                let mut g = GlideProcessor::new(fs);
+                for t in calls {
+                    g.set_time(*t);
+                }
+                (0..n).map(|_| g.process(1.0)).collect()
+            };
+            let far = |e: f32| if e < 5.0 { 10.0f32 } else { 0.0f32 };
+            let dist = |x: &[f32], y: &[f32]| x.iter().zip(y.iter()).map(|(p, q)| (*p as f64 - *q as f64).abs()).fold(0.0f64, f64::max);
+            for idx in lo..hi {
+                let fs = rr[(idx as usize) % rr.len()];
+                let chain = &cr[(idx as usize) / rr.len()];
+                let mut set = TimeSet::new();
+                for t in chain {
+                    set.request(*t);
+                }
+                let tmax = chain.iter().cloned().fold(0.0f32, f32::max);
+                let n = ((0.25 * tmax as f64 * fs as f64).ceil() as usize).clamp(24, 30_000);
+                let tol = 1.0e-6f64;
+                let r = std::panic::catch_unwind(std::panic::AssertUnwindSafe(|| {
+                    let got = respond(chain, fs, n);
+                    let refs: Vec<(f32, f64)> = set.0.iter().map(|e| (*e, dist(&got, &respond(&[far(*e), *e], fs, n)))).collect();
+                    // power of this case: would the response have been different had the last call been ignored?
+                    let prev = chain[chain.len() - 2];
+                    let stale = dist(&respond(&[far(prev), prev], fs, n), &respond(&[far(chain[chain.len() - 1]), chain[chain.len() - 1]], fs, n));
+                    (refs, stale)
+                }));
+                let ops: Vec<String> = chain.iter().map(|t| format!("set_time:{:?}", t)).chain([format!("process:1.0*{}", n)]).collect();
+                match r {
+                    Err(e) => lc.violation(viol("C14", "panic", format!("the real code panicked: {}", panic_msg(&e)), fs, ops)),
+                    Ok((refs, stale)) => {
+                        lc.count("dead_band_differential_chains", 1);
+                        if set.0.len() == 1 && stale > 100.0 * tol {
+                            lc.count("dead_band_differential_chains_where_ignoring_the_last_call_would_show", 1);
+                        }
+                        if !refs.iter().any(|(_, d)| *d <= tol) {
+                            lc.violation(viol("C14", "set-time-not-honoured", format!("fs={} Hz: after the set_time calls {:?} on a fresh processor the response to a step 0 -> 1 over {} samples differs from that of a processor set directly to each time the dead-band rule allows to be in effect: {:?} (time, largest difference)", fs, chain, n, refs), fs, ops));
+                        }
+                    }
+                }
+            }
+        });
+        rep.require_nonzero("dead_band_differential_chains_where_ignoring_the_last_call_would_show");
+    }
+    let n = rep.counters.get("step_responses").copied().unwrap_or(0) + rep.counters.get("schedules").copied().unwrap_or(0) + rep.counters.get("dead_band_differential_chains").copied().unwrap_or(0);
     rep.evaluations += n;
     rep.states += n;
     rep.transitions += n;
